@@ -243,6 +243,13 @@ def closure_probes():
     P.append(("own-name-visible-and-assignable", "var h = function g(){ return typeof g; }; function f(){ return typeof f; } var k = function me(n){ return n ? me(n - 1) + 1 : 0; }; log(h(), f(), k(3));"))
     P.append(("own-name-shadowed-by-inner-declaration", "var h = function g(){ function g(){ return 'inner'; } return g(); }; var h2 = function g2(){ var g2 = 5; return function(){ return g2; }; }; log(h(), h2()());"))
     P.append(("own-name-captured-by-closure", "var h = function self(n){ return function(){ return typeof self + n; }; }; log(h(1)(), h(2)());"))
+    # every non-arrow function has its own `arguments`: a nested function (called or not, reachable or not) that mentions its own
+    # does not change what the enclosing one reads; an arrow's `arguments` is the enclosing function's
+    P.append(("arguments-own-with-nested-mention", "function outer(){ var n = arguments.length; var inner = function(){ return arguments.length; }; return n * 10 + inner(1, 2); } log(outer(7, 8, 9));"))
+    P.append(("arguments-own-with-uncalled-nested-mention", "function outer(){ var s = 0; for (var i = 0; i < arguments.length; i++) { s += arguments[i]; } if (s > 100) { return s; } function helper(){ return arguments[0]; } return s + 1; } log(outer(1, 2, 3), outer(200));"))
+    P.append(("arguments-own-with-nested-after-return", "function outer(){ return arguments.length; function never(){ return arguments; } } log(outer(), outer(1), outer(1, 2));"))
+    P.append(("arguments-in-method-with-nested", "var o = {m: function(){ var self = arguments; return [1, 2].map(function(x){ return arguments.length + self.length + x; }); }}; log(o.m(5, 6, 7, 8));"))
+    P.append(("arguments-nested-two-levels", "function a(){ var x = arguments[0]; function b(){ var y = arguments[0]; function c(){ return arguments[0]; } return [y, c(3)]; } return [x, b(2)]; } log(a(1));"))
     P.append(("catch-param-named-like-captured-var", "function f(){ var e = 0; var g = function(){ return e; }; try { throw 5; } catch (e) { return e; } } log(f());"))
     P.append(("catch-param-closure-at-program-level", "var out = []; try { throw 7; } catch (q) { out.push(q); [1].forEach(function(){ out.push(q); }); } log(out);"))
     P.append(("catch-param-closure-in-callback", "function f(){ var out = []; try { throw 7; } catch (q) { [1, 2].forEach(function(v){ out.push(q + v); }); } return out; } log(f());"))
